@@ -980,6 +980,16 @@ package diam
 //@           len(pq.streamHeap) == old(len(pq.streamHeap)) - 1 && !has(pq.streamMap, x.(*streamBuffer).stream)
 //@   ensures kept: sheapok(pq) && smapok(pq)
 //@ end
+//@ # a new multistream connection asks the kernel for per-message stream information (SCTP_EVENT_DATA_IO: this is what
+//@ # makes SCTPRead deliver a SndRcvInfo with every read - the assumed clause data_comes_with_its_stream_number of ReadAny),
+//@ # starts with no parked data and pinned to no stream
+//@ func NewSCTPConn(sctpConn) (c)
+//@   property C19
+//@   atcall SubscribeEvents: [C19] asks_for_the_stream_number_of_every_read: ARG1 & 1 == 1
+//@   ensures [C19] starts_empty_and_unpinned: sctpConn != nil ==> typeis(c, *SCTPConn) && c.(*SCTPConn) != nil && fresh(c.(*SCTPConn)) && c.(*SCTPConn).s != nil &&
+//@           len(c.(*SCTPConn).s.streamHeap) == 0 && c.(*SCTPConn).currStream == InvalidStreamID && c.(*SCTPConn).writerStream == InvalidStreamID
+//@   ensures nil_in_nil_out: sctpConn == nil ==> c == nil
+//@ end
 //@ # which stream the Read / Write adaptors are pinned to
 //@ func (*SCTPConn).CurrentStream(msc) (r)
 //@   property C19
